@@ -13,6 +13,7 @@ arbitrary, so every statement covers erroring callbacks.
 `Permits.covers p k`: the search permits `p` suffice for `k` elements (always, when no limit is set).
 -/
 import XrayProofs.GenConsumers
+import XrayProofs.GenProduct
 namespace XrayModel.C16
 open XrayModel.Gen
 
@@ -315,5 +316,38 @@ theorem reduce_infinite_never_returns (f : F2) (init : Item) (fuel : Nat) (v : V
     reduce none fuel (.fromCount none) init f ≠ .ok v := by
   simp only [reduce, last, G.iter, G.start, Permits.ofLimit]
   exact lastLoop_infinite f fuel 0 init true none v
+
+
+/-! ### product (the odometer of `XrayModel/GenProduct.lean`)
+
+The general `iter_den_product` (the odometer enumerates `List` product in order, for all parts) is NOT proved:
+what is proved are the two ends of a round — an empty part empties the product, the first tuple is the tuple of
+heads — and closed instances in which the carry crosses two parts at once (the shape a seeded defect broke);
+the tie compares the model with the implementation and `itertools.product` on generated products. -/
+
+/-- a product with an empty part is empty -/
+theorem product_empty_part (L : Option Nat) (fuel : Nat) (xss : List (List V)) (h : [] ∈ xss) :
+    pnext L (fuel + 1) (pstart L (xss.map G.fromArr)) = .done := by
+  obtain ⟨its, hi⟩ := pfirsts_empty L fuel xss [] [] h
+  simp [pnext, pstart, startAll_arrs, hi]
+
+/-- the first element of a product of non-empty arrays is the tuple of their first elements, and every part
+has advanced by exactly one -/
+theorem product_first (L : Option Nat) (fuel : Nat) (xss : List (List V)) (h : [] ∉ xss) :
+    pnext L (fuel + 1) (pstart L (xss.map G.fromArr)) =
+      .item (.val (.tup (xss.filterMap List.head?)))
+        ⟨xss.map G.fromArr, xss.map (fun xs => It.arr xs.tail), some (xss.filterMap List.head?)⟩ := by
+  simp [pnext, pstart, startAll_arrs, pfirsts_heads L fuel xss [] [] h]
+
+/-- `[1,2] × [5,6] × [10,20]`: all eight tuples, in order (the carry from the last part crosses the middle one) -/
+theorem product_carry_crosses_two_parts :
+    ptake none 3 20 (pstart none [.fromArr [.int 1, .int 2], .fromArr [.int 5, .int 6], .fromArr [.int 10, .int 20]]) =
+      some ([[1, 5, 10], [1, 5, 20], [1, 6, 10], [1, 6, 20], [2, 5, 10], [2, 5, 20], [2, 6, 10], [2, 6, 20]].map
+        (fun (xs : List Int) => V.tup (xs.map V.int))) := by rfl
+
+/-- `2 × 1 × 3 × 2`: twelve tuples (a one-element part in the middle) -/
+theorem product_with_singleton_part :
+    (ptake none 3 20 (pstart none [.fromArr [.int 1, .int 2], .fromArr [.int 7], .fromArr [.int 1, .int 2, .int 3],
+      .fromArr [.int 8, .int 9]])).map List.length = some 12 := by rfl
 
 end XrayModel.C16
